@@ -317,6 +317,15 @@ def install(w):
         return prev_str_of(it, v, node) if prev_str_of else False
     w.str_of_ext = str_of_ext
 
+    prev_equal = w.equal_ext
+
+    def equal_ext_ty(it, a, b, node):
+        # GraphQL type objects define no __eq__: == is identity
+        if isinstance(a, VTy) and isinstance(b, VTy):
+            return a.t == b.t
+        return prev_equal(it, a, b, node)
+    w.equal_ext = equal_ext_ty
+
     prev_fresh = getattr(w, "fresh_ext", None)
 
     def fresh_ext(it, spec, label):
@@ -377,7 +386,8 @@ def install(w):
         "possible": p(possible),
         "of": lambda it, t: VTy(of_type(t.t)),
         "ty_rank": lambda it, t: VInt(rank(t.t)),
-        "kind_is": lambda it, t, name: VBool(tkind(t.t) == K[name.lit]),
+        "kind_is": lambda it, t, name: (VBool(tkind(t.t) == K[name.lit]) if isinstance(t, VTy)
+                                        else VBool(False)),   # None / other values have no kind
         "abstract_ty": p(lambda t: z3.Or(tkind(t) == K["INTERFACE"], tkind(t) == K["UNION"])),
         "composite_ty": p(lambda t: z3.Or(tkind(t) == K["OBJECT"], tkind(t) == K["INTERFACE"],
                                           tkind(t) == K["UNION"])),
